@@ -384,6 +384,9 @@ type parser struct {
 	isControlFlowDead           bool
 	shouldAddKeyComment         bool
 
+	// See "isTypeScriptArrowReturnTypeAfterQuestionAndBeforeColon"
+	tsArrowReturnTypeMemo map[tsArrowReturnTypeMemoKey]bool
+
 	// If this is true, then all top-level statements are wrapped in a try/catch
 	willWrapModuleInTryCatchForUsing bool
 }
